@@ -16,7 +16,7 @@ PROP = dict(
         "Comdex.C16.table_goStatements", "Comdex.C16.table_selectStmts", "Comdex.C16.table_chanOps",
         "Comdex.C16.table_wallClockUses", "Comdex.C16.table_randUses", "Comdex.C16.table_randUses_not_in_keepers",
         "Comdex.C16.table_taintedCallers", "Comdex.C16.table_envUses", "Comdex.C16.table_unsafeUses",
-        "Comdex.C16.table_mapArgsExternal", "Comdex.C16.table_scan_coverage", "Comdex.C16.table_spot_entries",
+        "Comdex.C16.table_mapArgsExternal", "Comdex.C16.no_mutable_package_state", "Comdex.C16.table_mutablePackageState_size", "Comdex.C16.table_scan_coverage", "Comdex.C16.table_spot_entries",
     ],
     harness_tests=["TestC16"],
     trusted_base=[KERNEL_TB, HARNESS_TB,
